@@ -86,6 +86,8 @@ pub fn parse_wmo<R: Read + Seek>(reader: &mut R) -> Result<ParsedWmo, WmoError> 
         ))
     })?;
 
+    require_wmo_chunks(&discovery)?;
+
     // Detect file type
     let file_type = detect_file_type(&discovery);
 
@@ -122,6 +124,8 @@ pub fn parse_wmo_with_metadata<R: Read + Seek>(reader: &mut R) -> Result<ParseRe
     // Clone discovery for return
     let discovery_clone = discovery.clone();
 
+    require_wmo_chunks(&discovery)?;
+
     // Detect file type
     let file_type = detect_file_type(&discovery);
 
@@ -146,6 +150,20 @@ pub fn parse_wmo_with_metadata<R: Read + Seek>(reader: &mut R) -> Result<ParseRe
         wmo,
         discovery: discovery_clone,
     })
+}
+
+/// A WMO file is a root (MOHD) or a group (MOGP). Input with neither - an empty file,
+/// arbitrary bytes - is not a WMO and must not come back as an empty group.
+fn require_wmo_chunks(discovery: &ChunkDiscovery) -> Result<(), WmoError> {
+    if discovery
+        .chunks
+        .iter()
+        .any(|c| matches!(c.id.as_str(), "MOHD" | "MOGP"))
+    {
+        Ok(())
+    } else {
+        Err(WmoError::MissingRequiredChunk("MOHD or MOGP".to_string()))
+    }
 }
 
 /// Discover chunks in a WMO file without parsing content
